@@ -97,6 +97,13 @@ class ConsumerRtBuffer:
             )
             return []
         determination_time = metric_value.DeterminationTime
+        if determination_time is None:
+            # DeterminationTime is optional; without it the samples have no time stamps and cannot be buffered
+            self._logger.debug(  # noqa: PLE1205
+                'real time sample array "{}" has no determination time, samples are not buffered',
+                realtime_sample_array_container.DescriptorHandle,
+            )
+            return []
         annots = metric_value.Annotation
         apply_annotations = metric_value.ApplyAnnotation
         rt_sample_containers = []
